@@ -25,9 +25,9 @@
 
 typedef MPT_STRUCT(queue) queue_t;
 
-#define Q_WF(q)      ((q)->len <= (q)->max && (q)->max <= CAP && \
-                      (((q)->max == 0) ? ((q)->off == 0) : ((q)->off < (q)->max)))
-/* (off + k) mod max for off < max, k <= max, written without a divider circuit */
+/* off == max is tolerated by the code as an alias of 0 (mpt_qpre produces it) */
+#define Q_WF(q)      ((q)->len <= (q)->max && (q)->max <= CAP && (q)->off <= (q)->max)
+/* (off + k) mod max for off <= max, k <= max, written without a divider circuit */
 #define Q_IDX(off, max, k)  (((off) + (k)) >= (max) ? ((off) + (k)) - (max) : ((off) + (k)))
 #define QV(q, k)     (((const uint8_t *) (q)->base)[Q_IDX((q)->off, (q)->max, (k))])
 /* view through the pre-state geometry (base/max are never changed by the byte operations) */
@@ -45,6 +45,8 @@ extern uint8_t g_v1, g_v2, g_vp;
 #define Q_SAME(q)  ((q)->len == g_len && (q)->off == g_off && (q)->max == g_max && (q)->base == g_base && \
                     IMP(g_p < g_max, ((const uint8_t *) (q)->base)[g_p] == g_vp))
 #define Q_GEOM(q)  ((q)->max == g_max && (q)->base == g_base)
+#define Q_PHYS(q)  IMP(g_p < g_max, ((const uint8_t *) (q)->base)[g_p] == g_vp)
+#define Q_STRUCT_SAME(q) ((q)->len == g_len && (q)->off == g_off && (q)->max == g_max && (q)->base == g_base)
 
 #ifdef VERIF_NATIVE
 # undef  Q_BIND
@@ -56,7 +58,7 @@ extern uint8_t g_v1, g_v2, g_vp;
 	IN(size_t, in_max); IN(size_t, in_len); IN(size_t, in_off); \
 	IN(size_t, in_k1); IN(size_t, in_k2); IN(size_t, in_p); \
 	uint8_t *st; queue_t q; \
-	V_REQ(in_max <= CAP && in_len <= in_max && (in_max ? in_off < in_max : in_off == 0)); \
+	V_REQ(in_max <= CAP && in_len <= in_max && in_off <= in_max); \
 	IN_BUF(st, in_max); \
 	q.base = in_max ? st : 0; q.max = in_max; q.len = in_len; q.off = in_off; \
 	g_len = in_len; g_off = in_off; g_max = in_max; g_base = q.base; \
@@ -64,6 +66,25 @@ extern uint8_t g_v1, g_v2, g_vp;
 	if (g_k1 < g_len) g_v1 = QV(&q, g_k1); \
 	if (g_k2 < g_len) g_v2 = QV(&q, g_k2); \
 	if (g_p < g_max) g_vp = st[g_p]
+
+/* variant for units whose copy loops are unwound (small CAP): the storage is a window of exactly
+ * `max` bytes inside a fixed block of CAP bytes, placed at its start or at its end (symbolic), so
+ * an access beyond either end of the storage leaves the object in one of the two placements, and
+ * a write into the block outside the window is caught by the ghost physical index g_p. */
+#define Q_BUILD_BLK(q, st, blk)  \
+	IN(size_t, in_max); IN(size_t, in_len); IN(size_t, in_off); \
+	IN(size_t, in_k1); IN(size_t, in_k2); IN(size_t, in_p); IN(int, in_layout); \
+	uint8_t *blk, *st; queue_t q; size_t pad; \
+	V_REQ(in_max <= CAP && in_len <= in_max && in_off <= in_max); \
+	IN_BUF(blk, CAP); pad = in_layout ? CAP - in_max : 0; st = blk + pad; \
+	q.base = in_max ? st : 0; q.max = in_max; q.len = in_len; q.off = in_off; \
+	g_len = in_len; g_off = in_off; g_max = in_max; g_base = q.base; \
+	g_k1 = in_k1; g_k2 = in_k2; g_p = in_p; \
+	if (g_k1 < g_len) g_v1 = QV(&q, g_k1); \
+	if (g_k2 < g_len) g_v2 = QV(&q, g_k2); \
+	if (g_p < CAP) g_vp = blk[g_p]
+/* block bytes outside the storage window never change; on refusal no byte changes */
+#define Q_BLK_OUTSIDE(blk, pad, refused) IMP(g_p < CAP && ((refused) || g_p < (pad) || g_p >= (pad) + g_max), (blk)[g_p] == g_vp)
 
 #define Q_GHOST_DEFS \
 	size_t g_len, g_off, g_max, g_k1, g_k2, g_p; void *g_base; uint8_t g_v1, g_v2, g_vp;
